@@ -135,11 +135,11 @@ func (k *pkey) secBody() []byte {
 }
 
 var (
-	oidP256    = []byte{0x2A, 0x86, 0x48, 0xCE, 0x3D, 0x03, 0x01, 0x07}
-	oidP384    = []byte{0x2B, 0x81, 0x04, 0x00, 0x22}
-	oidP521    = []byte{0x2B, 0x81, 0x04, 0x00, 0x23}
+	oidP256         = []byte{0x2A, 0x86, 0x48, 0xCE, 0x3D, 0x03, 0x01, 0x07}
+	oidP384         = []byte{0x2B, 0x81, 0x04, 0x00, 0x22}
+	oidP521         = []byte{0x2B, 0x81, 0x04, 0x00, 0x23}
 	pgpw_oidEd25519 = []byte{0x2B, 0x06, 0x01, 0x04, 0x01, 0xDA, 0x47, 0x0F, 0x01}
-	oidCv25519 = []byte{0x2B, 0x06, 0x01, 0x04, 0x01, 0x97, 0x55, 0x01, 0x05, 0x01}
+	oidCv25519      = []byte{0x2B, 0x06, 0x01, 0x04, 0x01, 0x97, 0x55, 0x01, 0x05, 0x01}
 )
 
 func curveOfOID(oid []byte) elliptic.Curve {
